@@ -76,8 +76,19 @@ func (key tsigHMACProvider) Verify(msg []byte, t *TSIG) error {
 
 type tsigSecretProvider map[string]string
 
+// secret returns the secret of the key called name. The name of a key is a domain
+// name (RFC 8945, section 4.2) and is compared as one: the map holds the names in
+// canonical form, a peer may write the same name in another letter case.
+func (ts tsigSecretProvider) secret(name string) (string, bool) {
+	if key, ok := ts[name]; ok {
+		return key, true
+	}
+	key, ok := ts[CanonicalName(name)]
+	return key, ok
+}
+
 func (ts tsigSecretProvider) Generate(msg []byte, t *TSIG) ([]byte, error) {
-	key, ok := ts[t.Hdr.Name]
+	key, ok := ts.secret(t.Hdr.Name)
 	if !ok {
 		return nil, ErrSecret
 	}
@@ -85,7 +96,7 @@ func (ts tsigSecretProvider) Generate(msg []byte, t *TSIG) ([]byte, error) {
 }
 
 func (ts tsigSecretProvider) Verify(msg []byte, t *TSIG) error {
-	key, ok := ts[t.Hdr.Name]
+	key, ok := ts.secret(t.Hdr.Name)
 	if !ok {
 		return ErrSecret
 	}
